@@ -413,10 +413,28 @@ def shared_manager_rule(repo: Repo, rep: Report) -> None:
     # normalizeUri joins prefix and local name of ONE compute_qname result
     f = ns.func("NamespaceManager.normalizeUri")
     joins = [c for c in ast.walk(f) if isinstance(c, ast.Call) and isinstance(c.func, ast.Attribute) and c.func.attr == "join" and c.args and isinstance(c.args[0], ast.List)]
+    def roots_of(e: ast.expr, seen: frozenset = frozenset()) -> set[str]:
+        """the subscripted variables a part of the qname is derived from (through local names: `name = parts[-1]`, `name = name.replace(...)`)"""
+        if isinstance(e, ast.Subscript):
+            return {norm(e.value)}
+        if isinstance(e, ast.Call) and isinstance(e.func, ast.Attribute):
+            return roots_of(e.func.value, seen)  # a method of the string itself (escaping)
+        if isinstance(e, ast.Name) and e.id in seen:
+            return set()  # derived from itself: adds no other source
+        if isinstance(e, ast.Name):
+            defs = [a.value for a in own_nodes(f) if isinstance(a, ast.Assign) and norm(a.targets[0]) == e.id]
+            if defs:
+                out: set[str] = set()
+                for d in defs:
+                    out |= roots_of(d, seen | {e.id})
+                return out
+        return {"?" + norm(e)}
     for j in joins:
         elts = j.args[0].elts
-        roots = {norm(e.value) if isinstance(e, ast.Subscript) else norm(e) for e in elts}
-        src_ok = len(roots) == 1 and all(isinstance(e, ast.Subscript) for e in elts)
+        roots = set()
+        for e in elts:
+            roots |= roots_of(e)
+        src_ok = len(roots) == 1 and not next(iter(roots)).startswith("?")
         if src_ok:
             var = next(iter(roots))
             src_ok = any(isinstance(a, ast.Assign) and norm(a.targets[0]) == var and isinstance(a.value, ast.Call) and "compute_qname" in norm(a.value.func) for a in own_nodes(f))
